@@ -432,6 +432,50 @@ def stop_cover(ctx):
 
 
 # --------------------------------------------------------------------------------------
+# corpus of minimised past failures (harness/corpus/<ID>/*.json): replayed on the real code before the search starts
+# --------------------------------------------------------------------------------------
+
+def run_corpus(ctx, mod):
+    """Each corpus file is a replay written by an earlier run of this check against a tree that broke the property
+    (a seeded change or a defect since repaired in /repo) and confirmed to HOLD on the tree it was committed with.
+    A case that fails today is a concrete failing input; a case the harness can no longer replay is only recorded."""
+    import contextlib, glob, io
+    d = os.path.join(HARNESS, "corpus", ctx.pid)
+    files = sorted(glob.glob(os.path.join(d, "*.json")))
+    budget = float(os.environ.get("ESRV_CORPUS_BUDGET", 75 if ctx.quick else 900))
+    rep = dict(cases=len(files), replayed=0, held=0, failed=[], not_replayable=[], skipped_for_time=0, wall_s=0.0)
+    t0 = time.time()
+    for f in files:
+        name = os.path.basename(f)[:-5]
+        if time.time() - t0 > budget:
+            rep["skipped_for_time"] += 1
+            continue
+        try:
+            data = json.load(open(f))
+            buf = io.StringIO()
+            with contextlib.redirect_stdout(buf):
+                ok = bool(mod.replay(ctx, data))
+        except BaseException as e:                      # harness cannot run this case on today's source: not a verdict
+            if isinstance(e, (KeyboardInterrupt, SystemExit)):
+                raise
+            rep["not_replayable"].append("%s: %r" % (name, e))
+            continue
+        rep["replayed"] += 1
+        ctx.case(("corpus", name), nontrivial=True)
+        if ok:
+            rep["held"] += 1
+        else:
+            rep["failed"].append(name)
+            ctx.fail(data.get("key", "corpus:" + name),
+                     "corpus case %s (past failing input, from %s) fails again: %s" % (
+                         name, data.get("origin", "an earlier run"), str(data.get("what", ""))[:400]),
+                     data.get("replay"))
+    rep["wall_s"] = round(time.time() - t0, 2)
+    ctx.extra["corpus"] = rep
+    return rep
+
+
+# --------------------------------------------------------------------------------------
 # known findings, decision, evidence
 # --------------------------------------------------------------------------------------
 
